@@ -106,7 +106,7 @@ func newC15World(rt *rapid.T) *c15World {
 		}
 	}
 	// power patterns
-	pattern := rapid.SampledFrom([]string{"one", "equal3", "equal4", "equal6", "33-33-34", "40-30-30", "whale", "near", "random"}).Draw(rt, "powers")
+	pattern := rapid.SampledFrom([]string{"one", "equal3", "equal4", "equal6", "33-33-34", "40-30-30", "whale", "near", "random", "huge"}).Draw(rt, "powers")
 	var powers []int64
 	switch pattern {
 	case "one":
@@ -125,6 +125,11 @@ func newC15World(rt *rapid.T) *c15World {
 		powers = []int64{70, 10, 10, 5, 5}
 	case "near":
 		powers = []int64{667, 333, 1, 1}
+	case "huge":
+		// four equal powers whose sum, converted to tokens (x 10^6), does not fit 64 bits: CometBFT allows a total
+		// power up to 2^63/8; such a set must never let a minority decide (whether it can be served at all is
+		// not asserted, see the liveness side)
+		powers = []int64{4611686018428, 4611686018428, 4611686018428, 4611686018428}
 	case "random":
 		n := rapid.IntRange(1, 7).Draw(rt, "nvals")
 		for i := 0; i < n; i++ {
@@ -543,7 +548,7 @@ func TestC15Rapid(t *testing.T) {
 					allHonest = false
 				}
 			}
-			if allHonest && fresh && sender == w.exec.Str && w.enabled && height >= w.storedHeight && total > 0 && minPower*1000 >= 667*total {
+			if allHonest && fresh && sender == w.exec.Str && w.enabled && height >= w.storedHeight && total > 0 && total < (1<<63-1)/1_000_000 && minPower*1000 >= 667*total {
 				if !r.OK() || changed != len(w.pairs) {
 					fail("an honest update signed by %d of %d power with a fresh timestamp was not applied (err %v, %d of %d pairs changed)", minPower, total, r.Err, changed, len(w.pairs))
 				}
